@@ -442,6 +442,8 @@ func c18Probes() []*pgen.Case {
 		// enums at every container position (map key included) with actions that need no import
 		mk("enum_positions_ignore", "type HA struct{ K map[KA]string; V map[string]KA; B map[KA]KA; L []KA; P *KA; A [2]KA; N map[KA][]KA }\ntype HB struct{ K map[KB]string; V map[string]KB; B map[KB]KB; L []KB; P *KB; A []KB; N map[KB][]KB }\n\n// goverter:converter\n// goverter:enum:unknown @ignore\ntype Converter interface {\n\t// goverter:enum:map A1 B1\n\tA(source KA) KB\n\tH(source HA) HB\n\tM(source map[KA]int) map[KB]int\n}\n"),
 		mk("enum_positions_key", "type HA struct{ K map[KA]string; B map[KA]KA; N map[KA]map[KA]bool }\ntype HB struct{ K map[KB]string; B map[KB]KB; N map[KB]map[KB]bool }\n\n// goverter:converter\n// goverter:enum:unknown B1\ntype Converter interface {\n\t// goverter:enum:map A1 B1\n\tA(source KA) KB\n\tH(source HA) HB\n\t// goverter:update target\n\tU(source HA, target *HB)\n}\n"),
+		// update methods in every signature variant (pointer / value source, with / without error): no import of their own
+		mk("update_signatures", "// goverter:converter\n// goverter:extend SE\ntype Converter interface {\n\t// goverter:update target\n\tA(source *In, target *Out) error\n\t// goverter:update target\n\tB(source In, target *Out) error\n}\n\n// goverter:converter\ntype Plain interface {\n\t// goverter:update target\n\tC(source *In, target *Out)\n\t// goverter:update target\n\t// goverter:update:ignoreZeroValueField\n\tD(target *Out, source *In)\n}\n"),
 		// unsafe.Pointer inside the user's struct: a plain assignment needs no import of unsafe
 		mkUnsafe(),
 		// fallible extend without any wrapping
